@@ -85,11 +85,11 @@ impl Property for C06 {
         let mut origin: BTreeMap<(String, u64), u64> = BTreeMap::new();
         for sop in &ops {
             let step = exec.step(sop)?;
-            exec.check_outcome(&step)?;
+            exec.usable_or_skip(&step)?;
             let begin_file = wal_number(&step.file_at_begin).unwrap_or(0);
-            match (&step.cop, &step.expected) {
+            match (&step.cop, &step.real.outcome) {
                 (COp::Append { q, batch, .. }, Outcome::Appended { last: Some(last) }) => {
-                    let first = last + 1 - batch.len() as u64;
+                    let first = (last + 1).saturating_sub(batch.len() as u64);
                     for pos in first..=*last {
                         origin.insert((q.text(), pos), begin_file);
                     }
@@ -101,21 +101,23 @@ impl Property for C06 {
                 _ => {}
             }
             let is_checked = matches!(
-                (&step.cop, &step.expected),
+                (&step.cop, &step.real.outcome),
                 (COp::Truncate { .. }, Outcome::Truncated { .. }) | (COp::Delete { .. }, Outcome::Deleted) | (COp::Restart { .. }, _)
             );
             if !is_checked {
                 continue;
             }
             env.evals(1);
-            // retained records according to the model
+            // retained records as the real log shows them (model-free)
+            let observed = exec.driver.observe().map_err(|_| CaseError::Skip("live-state-unobservable".to_string()))?;
             let mut oldest_retained: Option<u64> = None;
-            for (name, queue) in &exec.model.queues {
+            for (name, queue) in &observed {
                 for (pos, _) in &queue.recs {
                     if let Some(file) = origin.get(&(name.clone(), *pos)) {
                         oldest_retained = Some(oldest_retained.map_or(*file, |cur: u64| cur.min(*file)));
                     } else {
-                        return Err(CaseError::Engine(format!("no origin recorded for {name:?}@{pos}")));
+                        // a retained record the harness never saw appended: not this property's concern
+                        return Err(CaseError::Skip("retained-record-of-unknown-origin".to_string()));
                     }
                 }
             }
